@@ -14,17 +14,24 @@
 (* the deviation "contexts are recycled when Execute returns": after a timeout the object a     *)
 (* running handler still reads is zeroed and handed to the next dispatch - TLC rejects it       *)
 (* (EffIdIsAuth / ResponseToSender violated after <<D pa, T pa, D pb, R pa>>).                   *)
+(* The two commands carry different command ids or the SAME one (sid; the id is chosen by the    *)
+(* client): the code as it is never looks at it before the response is built.  Dedupe = TRUE is   *)
+(* the deviation "a command whose id equals that of a command still in flight is a                *)
+(* retransmission: attach it to the running one and hand both the same result" - the second       *)
+(* sender is answered with what was produced for the first (EffIdIsAuth violated after            *)
+(* <<D pa, D pb, R pa>> with sid; CommandsConc_show_dedupe.cfg).                                  *)
 (* Every maximal interleaving is emitted as a behaviour; the driver realises it with a gate in  *)
 (* front of HTTPDomainMappingRepository.CheckSubdomainAvailable and a short duplex timeout.     *)
 EXTENDS Naturals, Sequences, FiniteSets, TLC, Json
 
-CONSTANTS Pooled, Whos, Emit
+CONSTANTS Pooled, Dedupe, Whos, SameIds, Emit
 
 Procs == {"pa", "pb"}
 None  == "none"
 Zero  == [conn |-> "", id |-> None]
 
 VARIABLES who,    \* connection / command of pb: "vB:create" | "vB:check" | "c1:check"
+          sid,    \* pb's command id equals pa's
           pc,     \* p -> "idle" | "parked" (handler inside the storage call) | "done"
           waiting,\* p -> Execute has not returned yet
           ref,    \* p -> context object the handler of p reads
@@ -33,12 +40,12 @@ VARIABLES who,    \* connection / command of pb: "vB:create" | "vB:check" | "c1:
           eff,    \* p -> identity the effect was produced for
           resp,   \* p -> connection the response was written to
           hist
-vars == <<who, pc, waiting, ref, objs, pool, eff, resp, hist>>
+vars == <<who, sid, pc, waiting, ref, objs, pool, eff, resp, hist>>
 
 ConnOf(p) == IF p = "pa" THEN "vA" ELSE IF who = "c1:check" THEN "c1" ELSE "vB"
 AuthOf(c) == CASE c = "vA" -> "A" [] c = "vB" -> "B" [] OTHER -> None
 
-Init == /\ who \in Whos
+Init == /\ who \in Whos /\ sid \in SameIds
         /\ pc = [p \in Procs |-> "idle"] /\ waiting = [p \in Procs |-> FALSE]
         /\ ref = [p \in Procs |-> 0] /\ objs = <<>> /\ pool = {}
         /\ eff = [p \in Procs |-> "unset"] /\ resp = [p \in Procs |-> "unset"] /\ hist = <<>>
@@ -46,8 +53,12 @@ Init == /\ who \in Whos
 Step(op, p) == hist' = Append(hist, [op |-> op, p |-> p])
 
 \* Execute: createCommandContext, start the handler, which enters the storage call
+Other(p) == IF p = "pa" THEN "pb" ELSE "pa"
+InFlight(q) == pc[q] = "parked" /\ waiting[q]
+Attaches(p) == Dedupe /\ sid /\ InFlight(Other(p))
+
 Dispatch(p) ==
-  /\ pc[p] = "idle"
+  /\ pc[p] = "idle" /\ ~Attaches(p)
   /\ LET reuse == Pooled /\ pool # {}
          o == IF reuse THEN CHOOSE x \in pool : TRUE ELSE Len(objs) + 1
          rec == [conn |-> ConnOf(p), id |-> AuthOf(ConnOf(p))]
@@ -55,7 +66,13 @@ Dispatch(p) ==
         /\ pool' = pool \ {o}
         /\ ref' = [ref EXCEPT ![p] = o]
   /\ pc' = [pc EXCEPT ![p] = "parked"] /\ waiting' = [waiting EXCEPT ![p] = TRUE]
-  /\ Step("D", p) /\ UNCHANGED <<who, eff, resp>>
+  /\ Step("D", p) /\ UNCHANGED <<who, sid, eff, resp>>
+
+\* (deviation) executeDuplex finds a command with the same id in flight: no context, no handler - wait for that one's result
+Attach(p) ==
+  /\ pc[p] = "idle" /\ Attaches(p)
+  /\ pc' = [pc EXCEPT ![p] = "attached"] /\ waiting' = [waiting EXCEPT ![p] = TRUE]
+  /\ Step("D", p) /\ UNCHANGED <<who, sid, ref, objs, pool, eff, resp>>
 
 Recycle(o) == IF Pooled THEN /\ objs' = [objs EXCEPT ![o] = Zero] /\ pool' = pool \cup {o}
                         ELSE UNCHANGED <<objs, pool>>
@@ -65,23 +82,26 @@ Timeout(p) ==
   /\ pc[p] = "parked" /\ waiting[p]
   /\ waiting' = [waiting EXCEPT ![p] = FALSE]
   /\ Recycle(ref[p])
-  /\ Step("T", p) /\ UNCHANGED <<who, pc, ref, eff, resp>>
+  /\ Step("T", p) /\ UNCHANGED <<who, sid, pc, ref, eff, resp>>
 
 \* the storage call returns: the handler uses ctx.ClientID, the executor writes the response to ctx.ConnectionID
 Release(p) ==
   /\ pc[p] = "parked"
-  /\ eff' = [eff EXCEPT ![p] = objs[ref[p]].id]
-  /\ resp' = [resp EXCEPT ![p] = objs[ref[p]].conn]
-  /\ pc' = [pc EXCEPT ![p] = "done"] /\ waiting' = [waiting EXCEPT ![p] = FALSE]
+  /\ LET q == Other(p)
+         both == pc[q] = "attached"              \* the attached caller gets the same result, on its own connection
+     IN /\ eff' = [x \in Procs |-> IF x = p \/ (x = q /\ both) THEN objs[ref[p]].id ELSE eff[x]]
+        /\ resp' = [x \in Procs |-> IF x = p THEN objs[ref[p]].conn ELSE IF x = q /\ both THEN ConnOf(q) ELSE resp[x]]
+        /\ pc' = [x \in Procs |-> IF x = p \/ (x = q /\ both) THEN "done" ELSE pc[x]]
+        /\ waiting' = [x \in Procs |-> IF x = p \/ (x = q /\ both) THEN FALSE ELSE waiting[x]]
   /\ IF waiting[p] THEN Recycle(ref[p]) ELSE UNCHANGED <<objs, pool>>
-  /\ Step("R", p) /\ UNCHANGED <<who, ref>>
+  /\ Step("R", p) /\ UNCHANGED <<who, sid, ref>>
 
-Next == \E p \in Procs : Dispatch(p) \/ Timeout(p) \/ Release(p)
+Next == \E p \in Procs : Dispatch(p) \/ Attach(p) \/ Timeout(p) \/ Release(p)
 Spec == Init /\ [][Next]_vars
 
 AllDone == \A p \in Procs : pc[p] = "done"
 \* side effect only: one behaviour per maximal interleaving
-EmitBeh == (Emit /\ AllDone) => PrintT("BEH " \o ToJson([reg |-> "server", conc |-> TRUE, who |-> who, steps |-> hist]))
+EmitBeh == (Emit /\ AllDone) => PrintT("BEH " \o ToJson([reg |-> "server", conc |-> TRUE, who |-> who, sid |-> sid, steps |-> hist]))
 
 \* the property: the effect is produced for, and the response goes to, the connection the command arrived on
 EffIdIsAuth      == \A p \in Procs : pc[p] = "done" => eff[p] = AuthOf(ConnOf(p))
